@@ -49,6 +49,7 @@ structure DS where
   objs : List Obj := []
   bases : List Int := []     -- base offset of each listed segment (for printing)
   cache : List (String × List Rec) := []   -- result cache of the world's Server (dropped when the world changes)
+  tiFaults : List String := []             -- `.kfst` keys whose GetObject fails right now (`s3fault t:<key>`)
 
 /-- `fault=<-|item.item…>`: `l` listing error; `d<i>` / `c<i>` Decode error / context cancellation at listing position i -/
 def parseFaults (spec : String) : Option (Bool × List Nat) :=
@@ -96,7 +97,10 @@ def stepLine' (segs : List SegRef) (ws : List String) : List SegRef × String :=
 def stepLine (d : DS) (ws : List String) : DS × String :=
   match ws with
   | ["reset"] => ({}, "reset")
-  | ["s3fault", _] => (d, "s3fault")
+  | ["s3fault", spec] =>
+    -- only time-index read faults are modelled (the other S3-level faults are checked by the monitor only)
+    let ts := ((spec.splitOn ",").filter (·.startsWith "t:")).map (fun it => (it.drop 2).toString)
+    ({ d with tiFaults := ts }, "s3fault")
   | "select" :: _ =>
     match mkQuery ws, parseFaults (kvGet ws "fault") with
     | some _, some (lf, ds) =>
@@ -121,7 +125,8 @@ def stepLine (d : DS) (ws : List String) : DS × String :=
     | _, _, _, _ => (d, "bad-op")
   | ["list", ti, _, _] =>
     let sorted := sortObjs (d.objs.filter (·.complete))
-    let refs := listCompleted d.objs (ti = "1")
+    let refs := listCompletedT d.objs (fun o =>
+      ti = "1" && !(d.tiFaults.contains s!"t{o.topic}/{o.partition}/segment-{o.base}.kfst"))
     let parts := (refs.zip sorted).map fun (r, o) =>
       s!"{r.topic}/{r.partition}/{o.base}/{showOpt r.minOffset}/{showOpt r.maxOffset}/{showOpt r.minTs}/{showOpt r.maxTs}/{showOpt r.lastModified}"
     ({ d with segs := refs, cache := [] }, if parts.isEmpty then "list -" else "list " ++ joinWith ";" parts)
